@@ -103,6 +103,12 @@ class Model:
             self.ends[l].append(x)
             self._attach(x, l)
             return ("none",)
+        if name == "bulk_av":
+            _, l, x, K = r
+            for _ in range(K):
+                self.ends[l].append(x)
+            self._attach(x, l)
+            return ("none",)
         if name == "bulk":
             _, a, b, ci, K = r
             for _ in range(K):
